@@ -418,6 +418,36 @@ def gen_struct_long(name, rng, ctx):
     return fam
 
 
+def gen_struct_wide(name, rng, ctx):
+    """a record with 70 fields from its first release on (anything that keeps per-field facts in a
+    machine word meets more fields than bits), evolving like a general one"""
+    fam = Family(name, "struct")
+    fam.tags.add("wide")
+    rec = Record()
+    cyc = [lambda: lit_int("u8", 0, 255), lambda: Ty("bool", lambda r: r.choice(["true", "false"])), str_ty,
+           lambda: lit_int("u8", 0, 255).opt(), lambda: lit_int("i16", -32768, 32767), lambda: lit_int("u32", 0, 2**32 - 1)]
+    for i in range(70):
+        nm = f"f{i}"
+        rec.fields.append(Field(nm, cyc[i % len(cyc)]()))
+        rec.used.add(nm)
+    def step(kind):
+        nonlocal rec
+        for _ in range(50):
+            trial = rec.clone()
+            d = evolve(trial, rng, ctx, allow_removal=True)
+            if d and d.startswith(kind):
+                rec = trial
+                return d
+        return evolve(rec, rng, ctx, allow_removal=False)
+
+    fam.log.append(f"pre: {step('add')}")
+    for k, kind in enumerate(["", "add", "opt", "add", "remove", "add"]):
+        if k > 0:
+            fam.log.append(f"release {k}: {step(kind)}")
+        fam.versions.append(rec.clone())
+    return fam
+
+
 def gen_enum(name, rng, ctx):
     fam = Family(name, "enum")
     fam.tags.add("enum")
@@ -704,7 +734,7 @@ def main():
     fams = []
     ctx = dict(nestable=[], nested_used=set(), next_elem=[0])
     plan = (["general"] * 10 + ["enum"] * 5 + ["nested"] * 8 + ["containers"] * 8 + ["enum"] * 5 + ["nested"] * 4
-            + ["toplevel"] * 4 + ["shared"] * 3 + ["zipped"] * 2 + ["long"])
+            + ["toplevel"] * 4 + ["shared"] * 3 + ["zipped"] * 2 + ["long"] + ["wide"])
     exclude = set()
     for a in sys.argv[3:]:
         if a.startswith("--exclude="):
@@ -712,13 +742,15 @@ def main():
     counters = {}
     for flavour in plan:
         counters[flavour] = counters.get(flavour, 0) + 1
-        prefix = {"general": "Gs", "enum": "En", "nested": "Ns", "containers": "Cs", "toplevel": "Ts", "shared": "Sh", "zipped": "Zp", "long": "Lg"}[flavour]
+        prefix = {"general": "Gs", "enum": "En", "nested": "Ns", "containers": "Cs", "toplevel": "Ts", "shared": "Sh", "zipped": "Zp", "long": "Lg", "wide": "Wd"}[flavour]
         name = f"{prefix}{counters[flavour]}"
         sub = random.Random(rng.getrandbits(64))
         c = dict(ctx)
         if flavour in ("general", "containers", "toplevel", "zipped"):
             c = dict(nestable=[], nested_used=ctx["nested_used"], next_elem=ctx["next_elem"])
-        if flavour == "long":
+        if flavour == "wide":
+            fam = gen_struct_wide(name, sub, dict(nestable=[], nested_used=ctx["nested_used"], next_elem=ctx["next_elem"]))
+        elif flavour == "long":
             fam = gen_struct_long(name, sub, c)
         elif flavour == "shared":
             fam = gen_enum_shared(name, sub, c)
